@@ -130,7 +130,7 @@ func (p *Path) recordPanic(th *Thread, e *goPanic) {
 	if r == "unsat" {
 		return
 	}
-	p.violations = append(p.violations, &Violation{Kind: "panic", Msg: e.String(), Site: e.kind, Values: p.replayValues(m), Prefix: append([]int{}, p.prefix...), Unknown: r != "sat"})
+	p.violations = append(p.violations, &Violation{Kind: "panic", Msg: e.String(), Site: e.kind, Values: p.replayValues(m), Prefix: append([]int{}, p.prefix...), Unknown: r != "sat", Stack: e.stack})
 }
 
 func (p *Path) runnable(t *Thread) bool {
